@@ -281,6 +281,16 @@ Definition sort_by_order (l : list bits) (order : bits) : list bits :=
   rev (fold_left (fun rl x => ins_rev order x rl) l []).
 
 (* ---- TrieGaps ----------------------------------------------------------- *)
+(* leafGaps: the gaps at the target location of a trie holding the single key k (or no key) *)
+Definition leaf_gaps (k : option bits) (target order : bits) : list bits :=
+  match k with
+  | Some k =>
+      if is_prefix target k then sort_by_order (skipn (length target) (sibling_prefixes k)) order
+      else if is_prefix k target then []
+      else [target]
+  | None => [target]
+  end.
+
 (* trieGapsAtDepth: the gaps are returned relative to [depth] (suffixes) *)
 Fixpoint gaps_at {D} (t : trie D) (depth : nat) (target order : bits) : res (list bits) :=
   match t with
@@ -292,10 +302,12 @@ Fixpoint gaps_at {D} (t : trie D) (depth : nat) (target order : bits) : res (lis
         if (skip : bool) then Ok []
         else
           let br := child t0 t1 i in
+          let above := negb inside && (S depth <? length target) in
           match br with
-          | E => Ok [[i]]
+          | E => if above then Ok (map (skipn depth) (leaf_gaps None target order)) else Ok [[i]]
           | L k _ =>
-              if S depth <? length k then
+              if above then Ok (map (skipn depth) (leaf_gaps (Some k) target order))
+              else if S depth <? length k then
                 Ok (map (skipn depth) (sort_by_order (skipn (S depth) (sibling_prefixes k)) order))
               else Ok []
           | Nd _ _ =>
@@ -307,11 +319,8 @@ Fixpoint gaps_at {D} (t : trie D) (depth : nat) (target order : bits) : res (lis
 
 Definition trie_gaps {D} (t : trie D) (target order : bits) : res (list bits) :=
   match t with
-  | E => Ok [target]
-  | L k _ =>
-      if is_prefix target k then Ok (sort_by_order (skipn (length target) (sibling_prefixes k)) order)
-      else if is_prefix k target then Ok []
-      else Ok [target]
+  | E => Ok (leaf_gaps None target order)
+  | L k _ => Ok (leaf_gaps (Some k) target order)
   | Nd _ _ => gaps_at t 0 target order
   end.
 
